@@ -14,7 +14,10 @@ pub uninterp spec fn t_join_control(cp: u32) -> bool;
 pub uninterp spec fn t_old_hangul_jamo(cp: u32) -> bool;
 pub uninterp spec fn t_precis_ignorable(cp: u32) -> bool;
 pub uninterp spec fn t_control(cp: u32) -> bool;
-pub uninterp spec fn t_has_compat(cp: u32) -> bool;
+// HasCompat (RFC 8264 section 9.17): the code point is a scalar value that NFKC changes
+pub open spec fn t_has_compat(cp: u32) -> bool {
+    (cp <= 0xD7FF || (0xE000 <= cp <= 0x10FFFF)) && spec_nfkc(seq![cp as char]) != seq![cp as char]
+}
 pub uninterp spec fn t_letter_digit(cp: u32) -> bool;
 pub uninterp spec fn t_other_letter_digit(cp: u32) -> bool;
 pub uninterp spec fn t_space(cp: u32) -> bool;
